@@ -219,6 +219,29 @@ func verifyFunction(w *World, fn *ssa.Function) (rep *FnReport) {
 			}
 		}
 	}
+	// every callsite assertion must have found its call (otherwise the contract no longer binds)
+	if con != nil {
+		for _, cs := range con.CallSites {
+			if !cs.seen {
+				o := e.addObl("bind", fmt.Sprintf("callsite:%s#%d", cs.Callee, cs.N), fx.clauseTags(cs.C), out, "false", fn.Pos())
+				if o != nil {
+					o.Static = "the call the callsite assertion is attached to does not exist (anymore)"
+				}
+			}
+			cs.seen = false
+		}
+	}
+	if con != nil {
+		for _, oa := range con.OnAssign {
+			if !oa.seen {
+				o := e.addObl("bind", "onassign:"+oa.Callee, fx.clauseTags(oa.C), out, "false", fn.Pos())
+				if o != nil {
+					o.Static = "no assignment to the local named in the onassign clause (contract no longer binds)"
+				}
+			}
+			oa.seen = false
+		}
+	}
 	// lock balance at exit
 	tags := e.autoTags("lock", fn)
 	for _, h := range e.held(out) {
